@@ -433,6 +433,12 @@ BENIGN = [
                  "        let first_request =\n            (chunk_size as f64 / resample_ratio).ceil() as usize + POLYNOMIAL_LEN_U / 2;\n        let buffer_channel_length = ((max_resample_ratio_relative + 1.0) * first_request as f64)"),
                 ("            needed_input_size,\n            last_index: -(POLYNOMIAL_LEN_I / 2) as f64,\n            current_buffer_fill: needed_input_size,",
                  "            needed_input_size: first_request,\n            last_index: -(POLYNOMIAL_LEN_I / 2) as f64,\n            current_buffer_fill: first_request,")]),
+    dict(name="resample-unit-locals-renamed", file=SYN, properties=["C01", "C02", "C10", "C11", "C14", "C09"],
+         regex=[(r"\\bnew_len\\b", "kept_bins"), (r"\\bitem\\b", "slot"), (r"\\bspec\\b", "bin"), (r"\\bfilt\\b", "h")]),
+    dict(name="mask-binding-renamed", file=SYN, properties=["C13", "C11", "C03"],
+         regex=[(r"Some\\(mask\\)", "Some(user_mask)"), (r"if mask\\.len\\(\\)", "if user_mask.len()"), (r"actual: mask\\.len\\(\\)", "actual: user_mask.len()"), (r"copy_from_slice\\(mask\\)", "copy_from_slice(user_mask)")]),
+    dict(name="window-locals-renamed", file=WIN, properties=["C02"],
+         regex=[(r"\\bpi2\\b", "two_pi"), (r"\\bpi4\\b", "four_pi"), (r"\\bpi6\\b", "six_pi"), (r"\\bnp_f\\b", "n_f"), (r"\\bx_float\\b", "xf")]),
     dict(name="septic-coefficients-reassociated", file=FAST, properties=["C08"],
          old="    let k0 = t!(5040.0) * d;", new="    let k0 = d * t!(5040.0);"),
 ]
